@@ -26,7 +26,7 @@ CLAIMS = {
  "C10": ("crash", "TLC-generated histories x every crash position (operation index x 14 hook sites around and inside the write transaction) are executed by a child process that SIGKILLs itself at the position; a different process re-opens the on-disk bucket and "
          "SeqTrace!Reopen requires the acknowledged state plus either nothing or one whole RosmarStore outcome of the in-flight call (body, xattrs, CAS, expiry, revision together), the high-water marks covering every document, and the same UUID, collections, design documents and a re-armed expiry timer; a pending expiration whose deadline passes while the bucket is closed must still fire after the re-open"),
  "C12": ("seq", "RosmarView (the incrementally maintained index: marks, process clock, caller-chosen CAS, purge, design-document replacement) is model-checked by TLC (UpToDateIsExact; three witnesses must violate it); SeqTrace computes, from the specification's current documents, the rows a non-stale view query must return (map function applied to every document with a body or xattrs, JSON collation order, "
-         "key / range (inclusive and exclusive ends exactly on a key, both directions) / limit / descending / count-reduce variants) and compares them after every step of every TLC-generated behaviour with the incrementally maintained index - queried before and after writes to other collections, every step and every third step - and at the end of each behaviour with a freshly built one"),
+         "key / range (inclusive and exclusive ends exactly on a key, both directions) / limit / descending / count-reduce variants) and compares them after every step of every TLC-generated behaviour with the incrementally maintained index - queried before and after writes to other collections, every step and every third step - and at the end of each behaviour with a freshly built one; behaviours of RosmarView itself (queries, non-stale and stale=ok, placed by the model; caller-chosen CAS around the marks; purges; design-document replacements) are replayed with the clock standing still and validated by ViewTrace"),
  "C19": ("seq", "SeqTrace compares, after every step, five SQL queries over $_keyspace (all rows with id/body/xattrs; filter on a body property; filter on an xattr property; documents without xattrs; a projection whose first column is NULL for some rows) with the specification's live documents of that collection, on in-memory (pre-recorded iterator) and on-disk (streaming iterator) buckets"),
  "C13": ("life", "RosmarLife (registry, handles, stores, collections, feeds) is model-checked by TLC (CountEqualsOpenHandles, DiskRegisteredIffOpen, OpenHandleHasStore, DiskDataSurvivesClose, OtherHandlesUnaffectedByClose); "
          "TLC-simulated action lists (open in every mode / close / close again / CloseAndDelete / write / drop over 4 handles, 2 names, 3 URLs, 3 collections, starting from 15 directed prefixes) are executed on the real code and LifeTrace validates, after every action, each call's result class, what every handle can read, the registry and the data on disk"),
@@ -78,6 +78,7 @@ m = {
               "kind_free_text": "RosmarConc TLA+ module (schedules), gate scheduler + vh conc, SeqTrace feeds-line validation"},
              {"name": "tlc-life", "path": "/verif/spec", "serves_properties": ["C11", "C13", "C16", "C20"],
               "kind_free_text": "RosmarLifeOps/RosmarLife/LifeTrace TLA+ modules + vh life"},
+             {"name": "tlc-view", "path": "/verif/spec", "serves_properties": ["C12"], "kind_free_text": "RosmarView/ViewTrace + vh view (clock standing still)"},
              {"name": "tlc-hlc", "path": "/verif/spec", "serves_properties": ["C04"], "kind_free_text": "RosmarHLC/HLCTrace + vh hlc (injected clock)"},
              {"name": "tlc-crash", "path": "/verif/spec", "serves_properties": ["C10"], "kind_free_text": "SeqTrace!Reopen + vh crashchild/crashcheck (SIGKILL at hook sites)"},
              {"name": "tlc-shut", "path": "/verif/spec", "serves_properties": ["C13", "C20"], "kind_free_text": "RosmarShutdown lock-level model, ShutTrace + vh shut (one process per schedule)"},
